@@ -429,6 +429,9 @@ def py_str(eng, v: Val) -> Val:
             return V(STR, r)
         if isinstance(v.ty, TBool):
             return V(STR, Ite(v.t, StrVal("True"), StrVal("False")))
+        if isinstance(v.ty, TOpt) and isinstance(v.ty.inner, (TStr, TInt, TBool)):
+            inner = py_str(eng, V(v.ty.inner, d.opt_val(v.t)))
+            return V(STR, Ite(d.is_some(v.t), inner.t, StrVal("None")))
         f = d.fun("py_str_" + smt.mangle(v.t.sort), [v.t.sort], smt.STR)
         return V(STR, f(v.t))
     if isinstance(v, NoneV):
